@@ -1,6 +1,7 @@
 import KcpVerif.Props.C11
 import KcpVerif.Props.C11Core
 import KcpVerif.Props.C01Session
+import KcpVerif.Props.C01Reduce
 import KcpVerif.Lemmas.C11IsoSys
 import KcpVerif.Lemmas.C11IsoTrace
 import KcpVerif.Lemmas.C11IsoAcc
@@ -10,8 +11,10 @@ C11 — `isolation` (DESIGN.md 7.11, Tier-2 composition) and "no cross stall".
 
 The opaque session state `σ` of the listener model `Model/SessIn` is instantiated with the concrete
 session model `Model/Sess` (ghost history of `Lemmas/C01SessSys`: `rd` = bytes `Read` has returned,
-`wr` = bytes `WriteBuffers` has accepted, `wire` = datagrams emitted), configuration without cipher
-and FEC, the clock an input of every listener step (`Lemmas/C11IsoSys.lean`):
+`wr` = bytes `WriteBuffers` has accepted, `wire` = datagrams emitted), configuration without FEC, ANY
+cipher `ciph` at the listener's gate (no cipher: `plain`; a genuine datagram `d` arrives as `wrap d` for
+any `wrap` the gate opens to `d` — `C11_wrap_block`, `C11_wrap_aead` give the `wrap`s of the CRC-style
+ciphers and of AEAD), the clock an input of every listener step (`Lemmas/C11IsoSys.lean`):
 
     kcpInput := fun x d => sessStep x (.input d now)   init := fun c => { s := Sess.new c }
     closeFx  := fun x => sessStep x (.update now)       (Close = flush)
@@ -54,13 +57,13 @@ theorem C11_peer_prefix (c : U32) (g x : SessG) (h : Peer c g x) (hL : g.log.len
   exact this
 
 /-- **`C11_isolation`, abstract form**: with the wire-format fact as a named hypothesis -/
-theorem C11_isolation_of_wire (hw : WireOk) (honest : String → Bool) (evs : List IEv) (j : Nat)
-    (S : SessIn.Sess SessG) (hS : (C11Iso.run honest {} evs).l.objs[j]? = some S) (ha : honest S.addr = true) :
-    ∃ P, (C11Iso.run honest {} evs).clients S.addr S.conv = some P ∧ (P.log.length < 2 ^ 32 → S.st.rd <+: P.wr) := by
-  obtain ⟨g, hg, hp⟩ := (inv_run hw evs {} (inv_init honest)).objs j S hS ha
+theorem C11_isolation_of_wire (hw : WireOk) (ciph : Cipher) (honest : String → Bool) (evs : List IEv) (j : Nat)
+    (S : SessIn.Sess SessG) (hS : (C11Iso.run ciph honest {} evs).l.objs[j]? = some S) (ha : honest S.addr = true) :
+    ∃ P, (C11Iso.run ciph honest {} evs).clients S.addr S.conv = some P ∧ (P.log.length < 2 ^ 32 → S.st.rd <+: P.wr) := by
+  obtain ⟨g, hg, hp⟩ := (inv_run ciph hw evs {} (inv_init honest)).objs j S hS ha
   exact ⟨g, hg, fun hL => C11_peer_prefix S.conv g S.st hp hL⟩
 
-/-- **`C11_isolation`.**  One listener without cipher and FEC whose sessions are `Model/Sess`
+/-- **`C11_isolation`.**  One listener without FEC, with any cipher `ciph`, whose sessions are `Model/Sess`
 sessions; `honest` any set of addresses.  After ANY history `evs` from the empty listener — any
 interleaving of: clients dialling (any address, any number of conversations per address), clients
 doing anything, the network delivering with source `a` any datagram any client of `a` has emitted so
@@ -74,25 +77,45 @@ Accept, Close of any session, any `Read`/`Write`/`update`/setter on any server-s
 
 Nothing from other addresses, nothing from other conversations of the same address, nothing lost in
 the middle, duplicated or reordered.  (`P.log.length < 2^32`: the range hypothesis of C01.) -/
-theorem C11_isolation (honest : String → Bool) (evs : List IEv) (j : Nat) (S : SessIn.Sess SessG)
-    (hS : (C11Iso.run honest {} evs).l.objs[j]? = some S) (ha : honest S.addr = true) :
-    ∃ P, (C11Iso.run honest {} evs).clients S.addr S.conv = some P ∧ (P.log.length < 2 ^ 32 → S.st.rd <+: P.wr) :=
-  C11_isolation_of_wire C11_wire_conv honest evs j S hS ha
+theorem C11_isolation (ciph : Cipher) (honest : String → Bool) (evs : List IEv) (j : Nat) (S : SessIn.Sess SessG)
+    (hS : (C11Iso.run ciph honest {} evs).l.objs[j]? = some S) (ha : honest S.addr = true) :
+    ∃ P, (C11Iso.run ciph honest {} evs).clients S.addr S.conv = some P ∧ (P.log.length < 2 ^ 32 → S.st.rd <+: P.wr) :=
+  C11_isolation_of_wire C11_wire_conv ciph honest evs j S hS ha
+
+/-- the `wrap` of a CRC-style cipher (`enc` = `BlockCrypt.Encrypt`, laws = conclusions of C08): nonce ‖
+CRC ‖ frame, encrypted — with any nonce of the right size the listener's gate opens it to the frame, so
+`deliver a c i (fun d => enc (cryptFrame crc nonce d)) now` takes place -/
+theorem C11_wrap_block (c : Cipher) (enc : Bytes → Bytes) (hc : C01_BlockCipherLaws c enc) (nonce d : Bytes)
+    (hn : nonce.length = nonceSize) : cryptGate c (enc (Wire.cryptFrame c.crc nonce d)) = .ok d :=
+  C01_gate_genuine c enc hc nonce d hn
+
+/-- the `wrap` of an AEAD: nonce ‖ Seal(nonce, frame) -/
+theorem C11_wrap_aead (c : Cipher) (ns ov : Nat) (aseal : Bytes → Bytes → Bytes) (hc : C01_AeadLaws c ns ov aseal)
+    (nonce d : Bytes) (hn : nonce.length = ns) : cryptGate c (nonce ++ aseal nonce d) = .ok d := by
+  unfold cryptGate
+  rw [hc.kind]
+  simp only []
+  have hl : ¬ (nonce ++ aseal nonce d).length < ns + ov := by
+    rw [List.length_append, hc.seal_length, hn]; omega
+  rw [if_neg hl, List.take_left' hn, List.drop_left' hn, hc.open_seal]
+
+/-- no cipher: `wrap = id` -/
+theorem C11_wrap_plain (d : Bytes) : cryptGate plain (id d) = .ok d := rfl
 
 /-- **the sessions `Accept` has returned**: every index Accept has returned is a session object, and
 if its address is honest its reader's bytes are a prefix of its own peer's writes -/
-theorem C11_isolation_accepted (honest : String → Bool) (evs : List IEv) (id : Nat)
-    (hid : id ∈ (C11Iso.run honest {} evs).accepted) :
-    ∃ S, (C11Iso.run honest {} evs).l.objs[id]? = some S ∧
+theorem C11_isolation_accepted (ciph : Cipher) (honest : String → Bool) (evs : List IEv) (id : Nat)
+    (hid : id ∈ (C11Iso.run ciph honest {} evs).accepted) :
+    ∃ S, (C11Iso.run ciph honest {} evs).l.objs[id]? = some S ∧
       (honest S.addr = true →
-        ∃ P, (C11Iso.run honest {} evs).clients S.addr S.conv = some P ∧ (P.log.length < 2 ^ 32 → S.st.rd <+: P.wr)) := by
-  have hlt := accOk_run honest evs {} accOk_init id (Or.inl hid)
-  refine ⟨(C11Iso.run honest {} evs).l.objs[id], List.getElem?_eq_getElem hlt, fun ha => ?_⟩
-  exact C11_isolation honest evs id _ (List.getElem?_eq_getElem hlt) ha
+        ∃ P, (C11Iso.run ciph honest {} evs).clients S.addr S.conv = some P ∧ (P.log.length < 2 ^ 32 → S.st.rd <+: P.wr)) := by
+  have hlt := accOk_run ciph honest evs {} accOk_init id (Or.inl hid)
+  refine ⟨(C11Iso.run ciph honest {} evs).l.objs[id], List.getElem?_eq_getElem hlt, fun ha => ?_⟩
+  exact C11_isolation ciph honest evs id _ (List.getElem?_eq_getElem hlt) ha
 
 /-- the invariant behind `C11_isolation`, for every reachable state of the composite system -/
-theorem C11_isolation_state (honest : String → Bool) (evs : List IEv) :
-    Inv honest (C11Iso.run honest {} evs) := inv_run C11_wire_conv evs {} (inv_init honest)
+theorem C11_isolation_state (ciph : Cipher) (honest : String → Bool) (evs : List IEv) :
+    Inv honest (C11Iso.run ciph honest {} evs) := inv_run ciph C11_wire_conv evs {} (inv_init honest)
 
 /-! ### the ghost fields are faithful
 
@@ -178,13 +201,13 @@ theorem C11_reachable_wf (evs : List (LEv σ)) :
 /-- `C11_no_cross_stall` for the composite system of `C11_isolation` (listener open): the state of
 session `S` after the mixed history is its state after the sub-history of the listener events that
 concern `S` -/
-theorem C11_no_cross_stall_sessions (honest : String → Bool) (pre evs : List IEv) (a : String) (id : Nat)
-    (S : SessIn.Sess SessG) (hS : (C11Iso.run honest {} pre).l.objs[id]? = some S) (hSa : S.addr = a)
-    (hd : (C11Iso.run honest {} pre).dead = false) (hn : ∀ e ∈ evs, isListenerClose e = false) :
-    (C11Iso.run honest (C11Iso.run honest {} pre) evs).l.objs[id]? =
-      (lrun (C11Iso.run honest {} pre).l ((trace honest (C11Iso.run honest {} pre) evs).filter (concerns a id))).objs[id]? := by
-  have hi := C11_isolation_state honest pre
-  rw [C11Iso.run_l honest evs _ hd hn]
+theorem C11_no_cross_stall_sessions (ciph : Cipher) (honest : String → Bool) (pre evs : List IEv) (a : String) (id : Nat)
+    (S : SessIn.Sess SessG) (hS : (C11Iso.run ciph honest {} pre).l.objs[id]? = some S) (hSa : S.addr = a)
+    (hd : (C11Iso.run ciph honest {} pre).dead = false) (hn : ∀ e ∈ evs, isListenerClose e = false) :
+    (C11Iso.run ciph honest (C11Iso.run ciph honest {} pre) evs).l.objs[id]? =
+      (lrun (C11Iso.run ciph honest {} pre).l ((trace ciph honest (C11Iso.run ciph honest {} pre) evs).filter (concerns a id))).objs[id]? := by
+  have hi := C11_isolation_state ciph honest pre
+  rw [C11Iso.run_l ciph honest evs _ hd hn]
   exact (C11_no_cross_stall _ hi.wf hi.wf2 a id S hS hSa _).1
 
 /-! ### non-vacuity: two honest peers, a forger, a reconnect, stale traffic -/
@@ -204,27 +227,27 @@ def c11IsoEvs : List IEv :=
   [ .connect "A" 5, .connect "B" 9,
     .client "A" 5 (.write [[1, 2, 3]] 0), .client "A" 5 (.update 0),
     .client "B" 9 (.write [[7, 8]] 0), .client "B" 9 (.update 0),
-    .deliver "A" 5 0 1, .deliver "B" 9 0 2,
+    .deliver "A" 5 0 id 1, .deliver "B" 9 0 id 2,
     .forge "C" (c11Frame 5 0) 3, .forge "C" [1, 2, 3] 3, .forge "A" (c11Frame 9 0) 3,
-    .deliver "A" 5 0 4,
+    .deliver "A" 5 0 id 4,
     .accept, .accept,
     .sess 0 (.read 2), .sess 0 (.read 100), .sess 1 (.read 100),
     .sess 0 (.update 5), .client "A" 5 (.input c11IsoAck 6), .client "A" 5 (.write [[10, 11]] 7), .client "A" 5 (.update 7),
     .connect "A" 6, .client "A" 6 (.write [[4]] 10), .client "A" 6 (.update 10),
-    .deliver "A" 6 0 11,
-    .deliver "A" 5 1 12,
+    .deliver "A" 6 0 id 11,
+    .deliver "A" 5 1 id 12,
     .sess 3 (.read 100), .close 1 20 ]
 
 set_option maxRecDepth 1000000 in
 example :
-    (C11Iso.run c11IsoHonest {} c11IsoEvs).l.objs.map (fun o => (o.addr, o.conv, o.closed, o.st.rd, o.st.dead)) =
+    (C11Iso.run plain c11IsoHonest {} c11IsoEvs).l.objs.map (fun o => (o.addr, o.conv, o.closed, o.st.rd, o.st.dead)) =
       [("A", 5, true, [1, 2, 3], false), ("B", 9, true, [7, 8], false), ("C", 5, false, [], false),
        ("A", 6, false, [4], false)] ∧
-    (C11Iso.run c11IsoHonest {} c11IsoEvs).l.table = [("A", 3), ("C", 2)] ∧
-    (C11Iso.run c11IsoHonest {} c11IsoEvs).accepted = [0, 1] ∧
-    ((C11Iso.run c11IsoHonest {} c11IsoEvs).clients "A" 5).map (fun g => (g.wr, g.wire.length)) = some ([1, 2, 3, 10, 11], 2) ∧
-    ((C11Iso.run c11IsoHonest {} c11IsoEvs).clients "A" 6).map (fun g => g.wr) = some [4] ∧
-    ((C11Iso.run c11IsoHonest {} c11IsoEvs).clients "B" 9).map (fun g => g.wr) = some [7, 8] := by
+    (C11Iso.run plain c11IsoHonest {} c11IsoEvs).l.table = [("A", 3), ("C", 2)] ∧
+    (C11Iso.run plain c11IsoHonest {} c11IsoEvs).accepted = [0, 1] ∧
+    ((C11Iso.run plain c11IsoHonest {} c11IsoEvs).clients "A" 5).map (fun g => (g.wr, g.wire.length)) = some ([1, 2, 3, 10, 11], 2) ∧
+    ((C11Iso.run plain c11IsoHonest {} c11IsoEvs).clients "A" 6).map (fun g => g.wr) = some [4] ∧
+    ((C11Iso.run plain c11IsoHonest {} c11IsoEvs).clients "B" 9).map (fun g => g.wr) = some [7, 8] := by
   decide +kernel
 
 /- what the code does with a replayed FIRST datagram (sn = 0) of the previous conversation 5 of A: it is
@@ -232,17 +255,17 @@ a conversation start (`C11_reset_replaces`) — session 3 of conversation 6 is c
 of conversation 5 is created; its stream `[1, 2, 3]` is still a prefix of what `P_A^5` wrote -/
 set_option maxRecDepth 1000000 in
 example :
-    (C11Iso.run c11IsoHonest {} (c11IsoEvs ++ [.deliver "A" 5 0 30, .sess 4 (.read 100)])).l.objs.map
+    (C11Iso.run plain c11IsoHonest {} (c11IsoEvs ++ [.deliver "A" 5 0 id 30, .sess 4 (.read 100)])).l.objs.map
         (fun o => (o.addr, o.conv, o.closed, o.st.rd)) =
       [("A", 5, true, [1, 2, 3]), ("B", 9, true, [7, 8]), ("C", 5, false, []), ("A", 6, true, [4]),
        ("A", 5, false, [1, 2, 3])] ∧
-    (C11Iso.run c11IsoHonest {} (c11IsoEvs ++ [.deliver "A" 5 0 30, .sess 4 (.read 100)])).l.table = [("A", 4), ("C", 2)] := by
+    (C11Iso.run plain c11IsoHonest {} (c11IsoEvs ++ [.deliver "A" 5 0 id 30, .sess 4 (.read 100)])).l.table = [("A", 4), ("C", 2)] := by
   decide +kernel
 
 /- `C11_no_cross_stall` is not vacuous: in the history above, from the state in which session 1 exists,
 the events that concern ("B", session 1) are a proper sub-history -/
-example : ((trace c11IsoHonest (C11Iso.run c11IsoHonest {} (c11IsoEvs.take 8)) (c11IsoEvs.drop 8)).length,
-    ((trace c11IsoHonest (C11Iso.run c11IsoHonest {} (c11IsoEvs.take 8)) (c11IsoEvs.drop 8)).filter (concerns "B" 1)).length) = (13, 2) := by
+example : ((trace plain c11IsoHonest (C11Iso.run plain c11IsoHonest {} (c11IsoEvs.take 8)) (c11IsoEvs.drop 8)).length,
+    ((trace plain c11IsoHonest (C11Iso.run plain c11IsoHonest {} (c11IsoEvs.take 8)) (c11IsoEvs.drop 8)).filter (concerns "B" 1)).length) = (13, 2) := by
   decide +kernel
 
 end KcpVerif.Props
